@@ -30,6 +30,31 @@ Mechanism keys of the genuine defects found on the unchanged tree (kept firing):
       closed only when the caller drops the iterator
 Other violations are keyed '<kind>:<failing target>[:rebatch][:threads]'.
 
+Scenario families of `vlib/c12_ext.py` (added after the independent pipeline
+audit, audits/pipeline/hunt_2..5) and their root-cause keys, each attributed by
+the scenario of the case, never by the symptom alone:
+  srcfirst  failing source rows in front of every kind of first operator and of
+            re-batching first operators, skipped by the source, by
+            iterate(ignore_error=True), by both or by nobody
+      source-error-with-input-rebatching-truncates-stream
+          rows fail in the source, only iterate() skips, the first operator has
+          fn_batch_size: the input-side re-batcher dies with the passing error
+      source-error-first-operator-assign-filter-sink-indexerror
+          same scenario, first operator assign / filter / sink:
+          IndexError('No element left.') from the input tee
+  release   chained named stages with num_threads 0..3, a failing aggregate or a
+            failing operator of a later stage; bounded wait, then no thread
+            named after a stage may be alive (no maybe_stop() before the verdict)
+      threads-not-released-after-aggregate-error         (threads of the stage
+          whose aggregate failed)
+      threads-not-released-after-downstream-stage-error  (threads of a stage
+          upstream of the failing one)
+      iterator-yields-data-after-aggregate-error         (next() after the error
+          of an aggregate delivers further records)
+  tsink     sinks under num_threads 0..3 with slow records
+      threaded-sink-closed-per-worker-thread  (num_threads >= 2: close() per
+          worker, writes after the first close)
+
 Failing units are selected by position in the interpreter's evaluation and
 communicated to the real run by the canonical text of the call arguments, so
 the real function and the oracle fail on exactly the same calls, whatever the
@@ -51,6 +76,13 @@ RULE = (
     'apply/assign/filter/sink and/or a failing random-access source with/without '
     'slice support, batching options fn_batch_size/batch_size in {0,1,2,3}, '
     'num_threads in {0,1,2}, skipping on/off, ValueError/TypeError, failure set); '
+    'plus three families: srcfirst = (first operator kind from apply/select/assign/'
+    'filter/sink/batch and their fn_batch_size/batch_size variants, who skips the '
+    'failing source rows: source/iterate/both/nobody, num_threads, failing rows), '
+    'release = (1-3 chained named stages with num_threads 0..3, 4-60 (thorough: 4-250) records, failing '
+    'aggregate update call or failing operator units of a later stage, skipping '
+    'on/off) followed by a bounded wait for the helper threads, tsink = (chain with '
+    'a sink, num_threads 0..3, slow units of one operator); '
     'quick: EVERY subset of <= 3 failing positions of the <= 8 units of each '
     'scenario, thorough: random subsets of <= 6 positions of streams of <= 30 '
     'records; non-trivial = >= 1 failing unit with a surviving unit after it; '
@@ -59,8 +91,10 @@ ASSUMPTIONS = [
     'C08 assumptions (resolvable keys only, documented-valid assign/batch '
     'placements, pure function pool); chains avoid the known C08 defect triggers',
     'the failing function raises before doing anything else; every exception of a '
-    'user function is skippable, source errors are ValueError/TypeError with '
-    'SequenceDataSource(ignore_error=True)',
+    'user function is skippable, source errors are ValueError/TypeError raised by '
+    '__getitem__ of a random-access object behind SequenceDataSource and are skippable '
+    'by SequenceDataSource(ignore_error=True) as well as by iterate(ignore_error=True) '
+    '(the property quantifies over failing elements in the data source)',
     'assign/filter/sink pair each unit with its own record, so with failures their '
     'batch options are restricted to the unit == record cases (fn_batch_size in '
     '{0, B}, batch_size in {0, B}, B = rows per record); apply/select re-batch freely',
@@ -71,8 +105,17 @@ ASSUMPTIONS = [
     'with TypeError); lazily evaluated slices are not generated',
     'sinks are checked closed after the caught exception has been released and '
     'gc.collect() ran (frames referenced by a live traceback keep generators open)',
-    'with num_threads=2 every per-thread copy of the chain closes the shared sink; '
-    'writes after the first close are observed, not judged',
+    'in the failure scenarios with num_threads=2 close() calls per worker thread and '
+    'writes after the first close are observed only; they are judged in the failure-free '
+    'tsink family (every record written once, close() exactly once after the last '
+    'write has returned; a slow record sleeps inside a user function or inside write())',
+    'an aggregate error is not skippable: aggregates fail only with skipping off; '
+    'release / tsink chains hold no re-batching operator and no batch()',
+    'release: helper threads are the live threads whose name carries a stage name '
+    '(stages get unique names); the verdict is taken after the run has ended and a '
+    'bounded wait of 4 s, before any maybe_stop(); idle pool workers of a pool that '
+    'was never shut down count as alive; a watchdog expiry of the run itself is '
+    'inconclusive; sinks of release cases are not judged',
 ]
 REQUIRED = ['skip_on_checks', 'skip_off_checks', 'cause_chain_checks',
             'next_after_error_checks', 'sink_closed_checks', 'thread_baseline_checks',
@@ -80,7 +123,19 @@ REQUIRED = ['skip_on_checks', 'skip_off_checks', 'cause_chain_checks',
             'fail_apply', 'fail_assign', 'fail_filter', 'fail_sink', 'fail_source',
             'threads_0', 'threads_1', 'threads_2', 'rebatch_fail_checks',
             'source_slice_checks', 'source_noslice_checks', 'source_merged_checks',
-            'exc_ValueError', 'exc_TypeError']
+            'exc_ValueError', 'exc_TypeError',
+            'srcfirst_checks', 'first_apply', 'first_select', 'first_assign',
+            'first_filter', 'first_sink', 'first_batch', 'first_rebatch_apply',
+            'first_rebatch_select', 'first_rebatch_assign', 'src_skipped_by_iterate',
+            'src_skipped_by_own', 'src_skipped_by_both', 'src_skipped_by_none',
+            'release_checks', 'release_fault_agg', 'release_fault_op',
+            'release_fault_none', 'release_error_checks', 'release_no_error_checks',
+            'release_thread_checks', 'release_helper_threads_identified',
+            'release_stage_threads_1', 'release_stage_threads_2',
+            'release_stage_threads_3', 'release_next_after_end_checks',
+            'tsink_checks', 'tsink_threads_0', 'tsink_threads_1', 'tsink_threads_2',
+            'tsink_threads_3', 'tsink_written_once_checks', 'tsink_close_once_checks',
+            'tsink_slow_records_slept', 'tsink_thread_checks']
 CHUNK_TIMEOUT_S = {'quick': 240, 'thorough': 3000}
 TARGETS = ['apply', 'assign', 'filter', 'sink', 'source', 'source+apply', 'apply_rebatch',
            'assign_rebatch']
@@ -96,7 +151,9 @@ def plan(tier, seed):
   else:
     n_scen, chunks = 12288, 64
   per = n_scen // chunks
-  specs = [{'mode': 'selftest'}]
+  from vlib import c12_ext
+  # the families of vlib/c12_ext.py first: their `release` chunks end with a bounded wait
+  specs = [{'mode': 'selftest'}] + c12_ext.plan(tier, seed)
   for c in range(chunks):
     specs.append({'mode': 'scenarios', 'rseed': seed, 'lo': c * per, 'hi': (c + 1) * per})
   return specs
@@ -401,7 +458,11 @@ def _target(case):
   return '+'.join(parts) or 'none'
 
 
-def _mech(kind, case):
+def _mech(kind, case, err_repr=None):
+  from vlib import c12_ext
+  special = c12_ext.srcfirst_mechanism(kind, case, err_repr)
+  if special:
+    return special
   target = _target(case)
   skipping_on = case['ignore_error']
   if skipping_on and kind in ('stream_differs', 'raised_while_skipping', 'sink_records',
@@ -453,13 +514,20 @@ def check_case(ctx, case):
     if case['src'].get('split') is not None:
       ctx.count('source_merged_checks')
   ctx.count(f'threads_{nt}')
+  if case.get('family') == 'srcfirst':
+    base, _, rb = case['first'].partition('_')
+    ctx.count('srcfirst_checks')
+    ctx.count('first_' + base)
+    if rb:
+      ctx.count('first_rebatch_' + base)
+    ctx.count('src_skipped_by_' + case['src_mode'])
   if len(ctx.samples) < 2 and ora['n_failing'] >= 2:
     ctx.sample({k: v for k, v in case.items()})
 
   obs = real_run(case, g.dec(case['records']), ora['bad'])
 
   def viol(kind, detail):
-    mech = _mech(kind, case)
+    mech = _mech(kind, case, obs.get('err_repr'))
     ctx.count('viol:' + mech)
     ctx.violation(kind, case, dict(detail, target=_target(case),
                                    chain=[C08.op_tags(op) for op in chain]),
@@ -479,11 +547,12 @@ def check_case(ctx, case):
     return
 
   src = case.get('src')
-  skipping = case['ignore_error'] and (not src or src['ignore'])
-  expect_error = ora['n_failing'] > 0 and not skipping
-  if src and src['ignore'] and not case['ignore_error']:
-    # source errors are skipped, operator errors surface
-    expect_error = any(ora['bad'].values())
+  # operator errors are skipped by iterate(ignore_error=True); failing source rows
+  # by the source's own ignore_error or by iterate(ignore_error=True)
+  op_error = any(ora['bad'].values()) and not case['ignore_error']
+  src_error = bool(src) and bool(set(src['bad']) & set(range(len(records)))) and \
+      not (src['ignore'] or case['ignore_error'])
+  expect_error = op_error or src_error
   seq_eq = (lambda a, b: C08.same(a, b)) if nt <= 1 else \
       (lambda a, b: multiset(a) == multiset(b))
 
@@ -713,6 +782,10 @@ def run_chunk(ctx, spec):
     from vlib.props import C08
     pipeline_selftest.run(ctx, C08.same)
     return
+  if spec['mode'] != 'scenarios':
+    from vlib import c12_ext
+    c12_ext.run_chunk(ctx, spec)
+    return
   for sidx in range(spec['lo'], spec['hi']):
     run_scenario(ctx, spec['rseed'], sidx, spec['tier'])
 
@@ -722,5 +795,8 @@ def run_case(ctx, case):
     from vlib import pipeline_selftest
     from vlib.props import C08
     pipeline_selftest.run(ctx, C08.same, only=case['selftest'])
+  elif case.get('family') in ('release', 'tsink'):
+    from vlib import c12_ext
+    c12_ext.run_case(ctx, case)
   else:
     check_case(ctx, case)
